@@ -696,3 +696,16 @@ package server
 //@   ghost at entry: ghost.purged := false
 //@   ghost after call BecomePartitionLeader: ghost.purged := true
 //@   ensures [cursor-cache-purged] result == nil && old(p.Partition.Stream) == cursorsStream ==> ghost.purged
+
+// Telemetry opt-out through the environment (property C19): LIFTBRIDGE_TELEMETRY_ENABLED=false switches telemetry
+// off whatever the configuration file says, and also when there is no configuration file
+//@ func NewConfig serves C19
+//@   returns (cfg, err)
+//@   ensures [environment-opt-out] err == nil && envSet("LIFTBRIDGE_TELEMETRY_ENABLED") && parsesAsBool(envVal("LIFTBRIDGE_TELEMETRY_ENABLED")) && !boolOf(envVal("LIFTBRIDGE_TELEMETRY_ENABLED")) ==> cfg != nil && !cfg.Telemetry.Enabled
+//@ func NewDefaultConfig serves C19
+//@   ensures result != nil
+//@ func applyTelemetryEnv serves C19
+//@   requires config != nil
+//@   modifies config.Telemetry
+//@   ensures [environment-wins] envSet("LIFTBRIDGE_TELEMETRY_ENABLED") && parsesAsBool(envVal("LIFTBRIDGE_TELEMETRY_ENABLED")) ==> config.Telemetry.Enabled == boolOf(envVal("LIFTBRIDGE_TELEMETRY_ENABLED"))
+//@   ensures [otherwise-unchanged] !(envSet("LIFTBRIDGE_TELEMETRY_ENABLED") && parsesAsBool(envVal("LIFTBRIDGE_TELEMETRY_ENABLED"))) ==> config.Telemetry.Enabled == old(config.Telemetry.Enabled)
